@@ -90,6 +90,7 @@ contract(F, 'Scheduler._wakeup', props=('C08',), params={'self': 'self', 'item':
          ensures=[('logical-time-first;flag-set-while-the-task-runs,cleared-after;numeric-answer-reschedules-the-task-once', wakeup_post)],
          fields=FIELDS, class_modules={'Scheduler': F}, hooks={'getattr': s_getattr},
          policies={'Scheduler._sched_add': sched_add_pol}, modifies=[('main', '_in_awake_call')], native=False,
+         opts={'exceptions_stay_inside': True},
          note='no `raises`: a path on which StopStream or another exception of the task leaves _wakeup fails '
               '`no-unexpected-exception`')
 
